@@ -32,7 +32,7 @@ PLAN = {
                        ("tfree", dict(names="Names2", words="Words3", max_rl=1, pre=False, free=True, keep_old=False), 400)],
         "svc_workers": 16,
         "cls_models": [("MCReloadClass_q.cfg", 1), ("MCReloadClass_t.cfg", 1), ("MCReloadClass_t2.cfg", 2)],
-        "cls_chains": 2400, "cls_random": 2, "cls_parts": 12,
+        "cls_chains": 2400, "cls_random": 2, "cls_parts": 12, "wide": 24,
         "nproc": 14,
     },
 }
@@ -87,6 +87,45 @@ def make_sanity_jobs(jobs, limit=4):
             if len(out) >= limit:
                 break
     return out
+
+
+def wide_jobs(rng, count):
+    """Service tables at and around the size at which iauth_xquery's per-client bit masks are full (32 services, one
+    bit each): a table that is, was or becomes full, then shrinks, then gets services with names never seen before -
+    slots retired by one reload must be usable by the next.  Same job format as the TLC-printed histories; the probe is
+    the scripted one (? config, C, P, H, OKA from every service of the last file; replies to services that were not
+    asked are stray and must be ignored by both daemons alike)."""
+    probe_id = 6
+
+    def table(names):
+        return [{"name": n, "type": KNOWN_TYPES[(len(n) + sum(map(ord, n))) % len(KNOWN_TYPES)]} for n in names]
+
+    jobs = []
+    for k in range(count):
+        full = ["w%02d.svc" % i for i in range(32)]
+        keep = sorted(rng.sample(full, rng.choice((0, 1, 3, 30))))
+        fresh = ["new%d.svc" % i for i in range(rng.choice((1, 2, 2)))]
+        shape = k % 4
+        if shape == 0:          # starts full, shrinks, grows with new names
+            files = [full, keep, keep + fresh]
+        elif shape == 1:        # becomes full by a reload
+            files = [keep, full, keep, keep + fresh]
+        elif shape == 2:        # 31 -> 32 -> some replaced by new names in one edit
+            files = [full[:31], full, full[:32 - len(fresh)] + fresh]
+        else:                   # full, emptied, full again under other names
+            files = [full, [], ["x%02d.svc" % i for i in range(32)]]
+        files = [table(f) for f in files]
+        ev = [{"ev": {"e": "RL", "svcs": f}, "w": "rl", "n": 0} for f in files[1:]]
+        ev.append({"ev": {"e": "QC"}, "w": "probe", "n": 0})
+        ev.append({"ev": {"e": "C", "id": probe_id, "addr": "A%x" % probe_id, "port": 1000 + probe_id}, "w": "probe", "n": 1})
+        ev.append({"ev": {"e": "P", "id": probe_id, "shape": "ok", "modes": ["+", "x"], "cred": ["p1", 10], "raw": ["P+xp1", 0]},
+                   "w": "probe", "n": 1})
+        ev.append({"ev": {"e": "H", "id": probe_id}, "w": "probe", "n": 1})
+        for s_ in files[-1]:
+            ev.append({"ev": {"e": "X", "svc": s_["name"], "tag": "%x_1" % probe_id, "kind": "OKA", "acct": ["ac1", 8],
+                              "text": ["t1", 9], "trail": "", "oid": probe_id, "st": 0}, "w": "probe", "n": 1})
+        jobs.append({"old": files[0], "events": ev, "files": files, "sanity": False, "omit_empty": (k % 2 == 1), "wide": True})
+    return jobs
 
 
 # ---- reporting -----------------------------------------------------------------------------------------------
@@ -312,7 +351,14 @@ def run(ctx):
               "pre": pre_modes[n % 3], "omit_empty": (n % 2 == 1)} for n, c in enumerate(chains)]
     res_c = RR.replay_cls(ctx, cjobs, nproc=plan["nproc"])
 
+    wjobs = wide_jobs(ctx.rng, plan.get("wide", 4))
+    res_w = RR.replay_svc(ctx, wjobs, nproc=min(4, len(wjobs)), tag="rw")
+
     # 3. TLC judges
+    wbad, wviol, wdrift = RR.validate_svc(ctx, res_w, nthreads=4)
+    nd_w = report_svc(ctx, wjobs, wbad, wviol, wdrift)
+    ctx.note("full tables: %d histories around a 32-entry service section (%d reloads, %d steps), %d pairs differ"
+             % (len(wjobs), sum(x["reloads"] for x in res_w), sum(x["steps"] for x in res_w), len(wbad)))
     bad, viol, drift = RR.validate_svc(ctx, res_s, nthreads=plan["nproc"])
     cbad, cviol, cdrift, nna = RR.validate_cls(ctx, res_c, nthreads=plan["nproc"])
     nd = report_svc(ctx, jobs, bad, viol, drift)
